@@ -271,7 +271,8 @@ class Sampler:
         for i, k in enumerate(pdist.keys()):
             vals[i] = k
         # Generate N random samples and then process and count output states
-        rng = np.random.default_rng(process_random_seed(seed))
+        seed = process_random_seed(seed)
+        rng = np.random.default_rng(seed)
         try:
             samples = rng.choice(vals, p=list(pdist.values()), size=N)
         # Sometimes the probability distribution will not quite be normalized,
